@@ -86,8 +86,9 @@ func Filter(id any, point string, v any) any {
 
 var virtualFires atomic.Int64 //nolint:gochecknoglobals
 
-// VirtualNow is the clock of a virtual timeout: every call lies a further 1000 hours in the
-// future, so that whatever was scheduled after the previous virtual timeout is due again.
+// VirtualNow is the clock of a virtual timeout: far in the future, and every call two minutes
+// (more than the 60 s interval cap) later than the previous one, so that whatever was
+// scheduled after the previous virtual timeout is due again.
 func VirtualNow(any) time.Time {
-	return time.Now().Add(time.Duration(virtualFires.Add(1)) * 1000 * time.Hour)
+	return time.Now().Add(1000*time.Hour + time.Duration(virtualFires.Add(1))*2*time.Minute)
 }
